@@ -40,84 +40,73 @@ theorem unprotected_races (x : String) :
     Race (fun _ => []) [((0 : Tid), Ev.read x), (1, Ev.write x)] 0 1 x :=
   unsync_race x
 
+/-- a location accessed only through sync/atomic operations never races (two atomic accesses are no
+data race by definition; the discipline rules out plain accesses) -/
+theorem atomic_only_drf (body : String → List String) (tr : Trace) (wf : WF tr) (x : String)
+    (ob : ObeysAt body .atomicOnly tr x) : ∀ i j, ¬ Race body tr i j x :=
+  no_race_at body .atomicOnly wf x ob
+
+/-- mixing is not allowed: a plain write unordered with an atomic operation on the same location is
+a race of a well-formed trace (so `atomicOnly` has to exclude plain accesses) -/
+theorem atomic_plain_mix_races (x : String) :
+    Race (fun _ => []) [((0 : Tid), Ev.atomicOp x), (1, Ev.write x)] 0 1 x := by
+  refine ⟨by decide, by simp [tidAt], Or.inr (Or.inr ⟨0, rfl⟩), Or.inl (Or.inl ⟨1, rfl⟩),
+    Or.inr (Or.inl (Or.inl ⟨1, rfl⟩)), ?_, ?_⟩
+  · intro ⟨_, ⟨t, h⟩⟩; simp at h
+  · intro h
+    have := hb_same_thread (tr := [((0 : Tid), Ev.atomicOp x), (1, Ev.write x)]) ?_ 0 1 h
+    · simp [tidAt] at this
+    · intro p hp
+      simp only [List.mem_cons, List.not_mem_nil, or_false] at hp
+      rcases hp with rfl | rfl <;> exact ⟨rfl, fun o h => nomatch h⟩
+
 /-! ## The extracted table -/
 
-/-- full statement: every package-level variable of canvas, canvas/text and the four renderers that is
-written outside initialisation is disciplined -/
-def table_disciplined_statement : Prop := ∀ v, v ∈ vars → v.disciplined = true
+/-- every package-level variable of canvas, canvas/text and the four renderers is disciplined: never
+written outside initialisation, or written only inside one once body and read only inside/after it,
+or accessed only under one package-level lock, or accessed only through sync/atomic -/
+theorem table_disciplined : ∀ v, v ∈ vars → v.disciplined = true := by
+  have h : vars.all (fun v => v.disciplined) = true := by decide +kernel
+  intro v hv
+  exact List.all_eq_true.mp h v hv
 
-/-- proved part: every variable except `canvas.nonameFonts` -/
-theorem table_disciplined_partial :
-    ∀ v, v ∈ vars → v.qname ≠ "canvas.nonameFonts" → v.disciplined = true := by
-  have h : vars.all (fun v => v.qname == "canvas.nonameFonts" || v.disciplined) = true := by decide +kernel
-  intro v hv hne
-  have := List.all_eq_true.mp h v hv
-  simpa [hne] using this
-
-/-- the excluded variable is the defect: an unsynchronised `++` (and read) in LoadFont -/
-theorem nonameFonts_undisciplined :
-    ∃ v, v ∈ vars ∧ v.qname = "canvas.nonameFonts" ∧ v.disciplined = false ∧
-      (∃ s, s ∈ v.writes ∧ s.sync = Sync.none ∧ s.kind = "incdec" ∧ s.fn = "LoadFont") ∧
-      (∃ s, s ∈ v.reads ∧ s.sync = Sync.none) := by
-  refine ⟨v_canvas_nonameFonts, by decide +kernel, by decide, by decide, ?_, ?_⟩
-  · exact ⟨v_canvas_nonameFonts.writes.head!, by decide, by decide, by decide, by decide⟩
-  · exact ⟨v_canvas_nonameFonts.reads.head!, by decide, by decide⟩
-
-theorem table_disciplined_fails : ¬ table_disciplined_statement := by
-  intro h
-  have := h v_canvas_nonameFonts (by decide +kernel)
-  revert this; decide
-
-/-- every disciplined variable except the excluded one has a protection the model understands
-(read-only, once, or a package-level lock; no variable relies on atomics today) -/
-theorem table_protected :
-    ∀ v, v ∈ vars → v.qname ≠ "canvas.nonameFonts" → (protOf v).isSome = true := by
-  have h : vars.all (fun v => v.qname == "canvas.nonameFonts" || (protOf v).isSome) = true := by decide +kernel
-  intro v hv hne
-  have := List.all_eq_true.mp h v hv
-  simpa [hne] using this
+/-- every variable has a protection the model understands -/
+theorem table_protected : ∀ v, v ∈ vars → (protOf v).isSome = true := by
+  have h : vars.all (fun v => (protOf v).isSome) = true := by decide +kernel
+  intro v hv
+  exact List.all_eq_true.mp h v hv
 
 /-- the pools are written only by the once body and used only after it; the system-font cache only
-under its own mutex -/
-theorem table_pools_and_cache :
+under its own mutex; the unnamed-font counter only through sync/atomic -/
+theorem table_pools_cache_counter :
     protOf v_canvas_boPointPool = some (.byOnce "canvas.boInitPoolsOnce") ∧
     protOf v_canvas_boNodePool = some (.byOnce "canvas.boInitPoolsOnce") ∧
     protOf v_canvas_boSquarePool = some (.byOnce "canvas.boInitPoolsOnce") ∧
-    protOf v_canvas_systemFonts = some (.guarded (.mu "canvas.systemFonts")) := by
+    protOf v_canvas_systemFonts = some (.guarded (.mu "canvas.systemFonts")) ∧
+    protOf v_canvas_nonameFonts = some .atomicOnly := by
   decide
+
+/-- the variables that are written at all outside initialisation are exactly these five (a new
+mutable global shows up here) -/
+theorem table_written_vars :
+    (vars.filter (fun v => !v.writes.isEmpty || !v.addrs.isEmpty)).map (·.qname) =
+      ["canvas.systemFonts", "canvas.nonameFonts", "canvas.boPointPool", "canvas.boNodePool", "canvas.boSquarePool"] := by
+  decide +kernel
 
 /-- **table ⇒ race freedom**: in every well-formed trace whose accesses to a package-level variable
 are instances of the extracted sites (with the recorded synchronisation really in force), there is
-no data race on any variable other than `canvas.nonameFonts` -/
-theorem table_drf_partial (body : String → List String) (tr : Trace) (wf : WF tr)
-    (v : VarFact) (hv : v ∈ vars) (hne : v.qname ≠ "canvas.nonameFonts")
-    (hr : Realises body v tr) : ∀ i j, ¬ Race body tr i j v.qname := by
-  have hs := table_protected v hv hne
+no data race on that variable — for every variable of the table -/
+theorem table_drf (body : String → List String) (tr : Trace) (wf : WF tr)
+    (v : VarFact) (hv : v ∈ vars) (hr : Realises body v tr) : ∀ i j, ¬ Race body tr i j v.qname := by
+  have hs := table_protected v hv
   cases hp : protOf v with
   | none => rw [hp] at hs; cases hs
   | some p => exact no_race_at body p wf v.qname (disciplined_obeys body v p tr hp hr)
 
-/-- full statement of the above (false today because of nonameFonts) -/
-def table_drf_statement : Prop :=
-  ∀ (body : String → List String) (tr : Trace), WF tr → ∀ v, v ∈ vars → Realises body v tr →
-    ∀ i j, ¬ Race body tr i j v.qname
-
-/-- two goroutines in LoadFont realise the nonameFonts sites and race: the exclusion is necessary -/
-theorem nonameFonts_race_witness :
-    ∃ tr : Trace, WF tr ∧ Realises (fun _ => []) v_canvas_nonameFonts tr ∧
-      Race (fun _ => []) tr 0 1 "canvas.nonameFonts" := by
-  obtain ⟨hwf, hrace⟩ := unsync_race "canvas.nonameFonts"
-  refine ⟨_, hwf, ⟨?_, ?_, ?_⟩, hrace⟩
-  · intro k t _
-    exact ⟨v_canvas_nonameFonts.reads.head!, by decide, Site.holdsAt_of_none _ (by decide) _ _ _⟩
-  · intro k t _
-    exact ⟨v_canvas_nonameFonts.writes.head!, by decide, Site.holdsAt_of_none _ (by decide) _ _ _⟩
-  · intro o h; cases h
-
-theorem table_drf_fails : ¬ table_drf_statement := by
-  intro h
-  obtain ⟨tr, hwf, hr, hrace⟩ := nonameFonts_race_witness
-  exact h _ tr hwf v_canvas_nonameFonts (by decide +kernel) hr 0 1 hrace
+/-- the discipline check is not vacuous: a variable with an unsynchronised `++` is rejected -/
+example : ({ qname := "p.n", pkg := "p", name := "n", typ := "int", pos := "", nreads := 1,
+             writes := [⟨"f", "", "incdec", .none⟩], addrs := [], reads := [⟨"f", "", "read", .none⟩] } : VarFact).disciplined = false := by
+  decide
 
 /-! ## Pooled sweep-line objects -/
 
@@ -155,11 +144,21 @@ theorem pool_sites_deterministic {α : Type} (g : GetSite) (hg : g ∈ getSites)
   simp only [GetSite.stateless, Bool.and_eq_true, List.all_eq_true, List.contains_iff_mem] at hs
   exact pool_stateless g.fields ops hres hreads (fun f hf => hext f (by simpa using hs.2 f hf))
 
+/-- **release discipline**: every `Put` of the sweep-line pools lies in the release tail of its
+function — the trailing statements that do nothing but Put, after the sweep loop and after the
+result-tracing loop of bentleyOttmann — so no statement of the function can use an object after it
+went back to a pool. No Put is inside the sweep loop or the tracing loop. -/
+theorem pool_puts_in_release_tail :
+    (∀ p, p ∈ putSites → p.inTail = true) ∧
+    (∀ p, p ∈ putSites → p.pool = "canvas.boPointPool" ∨ p.pool = "canvas.boSquarePool" → p.fn = "bentleyOttmann") ∧
+    (∀ p, p ∈ putSites → "for 0 < len(*queue)" ∉ p.loops) ∧
+    (∀ q, q ∈ ["canvas.boPointPool", "canvas.boNodePool", "canvas.boSquarePool"] → ∃ p, p ∈ putSites ∧ p.pool = q) := by
+  decide
+
 /-- the ownership hypothesis of `lockset_drf` (fields of a pooled object are accessed only between
-its Get and its Put, `Prot.guarded (Tok.obj p v)`) matters: an object that is still read after it
-was Put — what bentleyOttmann does with the collapsed segments it returns to boPointPool while
-`prev` chains still reach them — races with the initialisation by the next goroutine that Gets it,
-in a well-formed trace -/
+its Get and its Put, `Prot.guarded (Tok.obj p v)`) matters: in the MODEL, an object that is still
+read after it was Put races with the initialisation by the next thread that Gets it, in a
+well-formed trace (this is why `pool_puts_in_release_tail` is an obligation on the code) -/
 theorem use_after_put_races :
     WF useAfterPut ∧ Race (fun _ => []) useAfterPut 3 4 "f" ∧
     ¬ ObeysAt (fun _ => []) (.guarded (.obj "p" 1)) useAfterPut "f" := by
@@ -184,7 +183,7 @@ example : ∀ i j, ¬ Race (fun _ => [])
     | 4 => simp at hk; obtain ⟨rfl, rfl⟩ := hk
            constructor <;> intro h <;> simp [Ev.acq, Ev.rel] at h
     | k+5 => simp at hk
-  · refine ⟨?_, ?_, ?_, ?_, ?_, ?_⟩
+  · refine ⟨?_, ?_, ?_, ?_, ?_, ?_, ?_, ?_, ?_⟩
     · intro k t tok hk; match k with
       | 0 | 1 | 2 | 3 | 4 => simp at hk
       | k+5 => simp at hk
@@ -199,6 +198,11 @@ example : ∀ i j, ¬ Race (fun _ => [])
     · intro k t o _ h; cases h
     · intro k t _ h; cases h
     · intro o h; cases h
+    · intro k t _ h; cases h
+    · intro k t _ h; cases h
+    · intro k t hk; match k with
+      | 0 | 1 | 2 | 3 | 4 => simp at hk
+      | k+5 => simp at hk
 
 /-- the read-before-assign hypothesis matters: a statement that reads a stale field leaks it -/
 example : ∃ (ops : List (InitOp Nat)) (s s' : String → Nat),
